@@ -14,13 +14,20 @@ Definitions used in the statements that live in the helper files:
 * Xp/Proofs/C03Fn.lean — `observePure` (ObserveComposedResources as a pure function of the
   store), `ObservedAs` (what being in the observation means), `NoGc`;
 * Xp/Proofs/C03PT.lean — lemmas on the P&T associator.
+
+Informer cache: the store `s` of every theorem below is arbitrary, and with it the set `s.miss` of
+composed resources that exist but are missing from the informer cache while the reconcile runs
+(Xp/Model/C01.lean: the first read of a reference and the name probes go through the cache, a
+cached NotFound is repeated against the API server). So every statement holds for every such set;
+the justifications `FnGcJustified` / `PtGcJustified` and the observation `observePure` speak about
+the objects and references of the store only — what the cache misses changes none of them.
 -/
 namespace Xp.C03
 open Xp.C01
 
 /-- requests that cannot change a composed resource or spec.resourceRefs -/
-def Harmless : Req → Prop
-  | .getXR | .addFinalizer _ | .getObj _ _ | .statusUpdate _ => True
+def Harmless : Req → Prop   -- (`getCached`: a read through the informer cache)
+  | .getXR | .addFinalizer _ | .getObj _ _ | .getCached _ _ | .statusUpdate _ => True
   | _ => False
 
 theorem harmless_keeps (s : St) (r : Req) (h : Harmless r) :
@@ -29,6 +36,7 @@ theorem harmless_keeps (s : St) (r : Req) (h : Harmless r) :
   | getXR => exact ⟨rfl, rfl⟩
   | addFinalizer rv => simp only [exec]; split <;> exact ⟨rfl, rfl⟩
   | getObj k n => simp only [exec]; split <;> exact ⟨rfl, rfl⟩
+  | getCached k n => simp only [exec]; (repeat' split) <;> exact ⟨rfl, rfl⟩
   | statusUpdate rv => simp only [exec]; split <;> exact ⟨rfl, rfl⟩
   | _ => exact absurd h (by simp [Harmless])
 
@@ -378,6 +386,7 @@ theorem fn_gc_exact (out : Obs → FnOut) (ch : Choices) (hgc : ∀ l x, x ∈ c
           ∃ a o, (a, o) ∈ obs ∧ o.kind = kind ∧ o.name = name ∧ ∀ d ∈ ds, d.rname ≠ a) := by
   let C : Req → Prop := fun r => ∃ v rf, r = .patchRefs v rf
   have hget : ∀ k n, ¬ C (.getObj k n) := by rintro k n ⟨_, _, h⟩; cases h
+  have hgetc : ∀ k n, ¬ C (.getCached k n) := by rintro k n ⟨_, _, h⟩; cases h
   have hst : ∀ l, ¬ C (.statusUpdate l) := by rintro l ⟨_, _, h⟩; cases h
   have hreach : Reached C (reconcile (.fn out ch)) s := by
     rcases hdone with h | ⟨v, rf, h⟩
@@ -387,13 +396,13 @@ theorem fn_gc_exact (out : Obs → FnOut) (ch : Choices) (hgc : ∀ l x, x ∈ c
   change Reached C (composeFn lrv s.refs out ch) s' at hr1
   change ∀ r ∈ okApplied (composeFn lrv s.refs out ch) s', _ at hsub1
   rw [composeFn_eq] at hr1 hsub1
-  obtain ⟨obs, hobs, hr2, hsub2⟩ := reached_observeFn hget hst s' lrv _ _ _ hr1
+  obtain ⟨obs, hobs, hr2, hsub2⟩ := reached_observeFn hget hgetc hst s' lrv _ _ _ hr1
   rw [hobjs] at hobs
   cases hout : out obs with
   | failed => rw [composeTail_failed hout] at hr2; exact absurd hr2 (not_reached_onError hst)
   | desired ds =>
     rw [composeTail_desired hout] at hr2 hsub2
-    obtain ⟨named, _, hsub3⟩ := reached_renderFn hget hst s' lrv obs _ _ _ _ hr2
+    obtain ⟨named, _, hsub3⟩ := reached_renderFn hgetc hst s' lrv obs _ _ _ _ hr2
     refine ⟨obs, ds, hobs, hout, ?_⟩
     have hback : ∀ kind name, FnGcJustified out s kind name →
         ∃ a o, (a, o) ∈ obs ∧ o.kind = kind ∧ o.name = name ∧ ∀ d ∈ ds, d.rname ≠ a := by
@@ -503,6 +512,7 @@ theorem pt_gc_exact (tmpl : List Desired) (fresh : List String) (ver : String) (
         (∀ t ∈ tmpl, t.rname ≠ o.annot) → o.annot ≠ "" ∧ o.ctrl ≠ .other) := by
   let C : Req → Prop := fun r => ∃ rv v rf, r = .updateXR rv v rf
   have hget : ∀ k n, ¬ C (.getObj k n) := by rintro k n ⟨_, _, _, h⟩; cases h
+  have hgetc : ∀ k n, ¬ C (.getCached k n) := by rintro k n ⟨_, _, _, h⟩; cases h
   have hst : ∀ l, ¬ C (.statusUpdate l) := by rintro l ⟨_, _, _, h⟩; cases h
   have hgu : ∀ k n, ¬ C (.gcUpdate k n) := by rintro k n ⟨_, _, _, h⟩; cases h
   have hdel : ∀ k n, ¬ C (.delete k n) := by rintro k n ⟨_, _, _, h⟩; cases h
@@ -523,7 +533,7 @@ theorem pt_gc_exact (tmpl : List Desired) (fresh : List String) (ver : String) (
       apply List.any_eq_false.mpr
       intro t htm
       simpa using hnt t htm
-    have := reached_associatePT hget hst hgu hdel lrv tmpl _ s.refs [] s' hr1 ⟨kind, name⟩ hr hn o
+    have := reached_associatePT hget hgetc hst hgu hdel lrv tmpl _ s.refs [] s' hr1 ⟨kind, name⟩ hr hn o
       (by rw [hobjs]; exact hf) ht
     exact ⟨hsub1 _ this.1, hsub1 _ this.2⟩
   have hback : ∀ kind name, PtGcJustified tmpl s kind name →
@@ -600,7 +610,15 @@ theorem gcStore_observed : observePure gcStore.objs gcStore.refs [] = some gcObs
 /-- the fault-free function-composer run: "a" kept, "b" collected, the foreign one skipped -/
 theorem gcStore_fn_run :
     (applied sem Plan.allOk 0 (reconcile (.fn gcOut gcCh)) gcStore).take 7 =
-      [.getXR, .getObj "KA" "xr-a", .getObj "KB" "xr-b", .getObj "KF" "xr-f",
+      [.getXR, .getCached "KA" "xr-a", .getCached "KB" "xr-b", .getCached "KF" "xr-f",
+       .gcUpdate "KB" "xr-b", .delete "KB" "xr-b",
+       .patchRefs "v1" (refsOf [⟨⟨"a", "KA", 1, true⟩, "xr-a", false⟩])] := rfl
+
+/-- the same run with `xr-b` missing from the informer cache: the cached read answers NotFound,
+the live read finds it, and it is collected all the same -/
+example :
+    (applied sem Plan.allOk 0 (reconcile (.fn gcOut gcCh)) { gcStore with miss := [⟨"KB", "xr-b"⟩] }).take 8 =
+      [.getXR, .getCached "KA" "xr-a", .getCached "KB" "xr-b", .getObj "KB" "xr-b", .getCached "KF" "xr-f",
        .gcUpdate "KB" "xr-b", .delete "KB" "xr-b",
        .patchRefs "v1" (refsOf [⟨⟨"a", "KA", 1, true⟩, "xr-a", false⟩])] := rfl
 
@@ -629,8 +647,8 @@ def gcTmpl : List Desired := [⟨"a", "KA", 1, true⟩]
 
 theorem gcStore_pt_run :
     applied sem Plan.allOk 0 (reconcile (.pt gcTmpl [] "v1")) gcStore =
-      [.getXR, .getObj "KA" "xr-a", .getObj "KB" "xr-b", .gcUpdate "KB" "xr-b", .delete "KB" "xr-b",
-       .getObj "KF" "xr-f", .statusUpdate (some 3)] := rfl
+      [.getXR, .getCached "KA" "xr-a", .getCached "KB" "xr-b", .gcUpdate "KB" "xr-b", .delete "KB" "xr-b",
+       .getCached "KF" "xr-f", .statusUpdate (some 3)] := rfl
 
 example : PtGcJustified gcTmpl gcStore "KB" "xr-b" :=
   ⟨gcObjB, by decide, by decide, by decide, by decide, by decide, by decide⟩
@@ -649,7 +667,7 @@ def gcStore2 : St := { gcStore with refs := [⟨"KA", "xr-a"⟩, ⟨"KB", "xr-b"
 
 theorem gcStore2_pt_run :
     (applied sem Plan.allOk 0 (reconcile (.pt gcTmpl [] "v1")) gcStore2).take 6 =
-      [.getXR, .getObj "KA" "xr-a", .getObj "KB" "xr-b", .gcUpdate "KB" "xr-b", .delete "KB" "xr-b",
+      [.getXR, .getCached "KA" "xr-a", .getCached "KB" "xr-b", .gcUpdate "KB" "xr-b", .delete "KB" "xr-b",
        .updateXR 3 "v1" [⟨"KA", "xr-a"⟩]] := rfl
 
 example : ∃ rv v rf, Req.updateXR rv v rf ∈ applied sem Plan.allOk 0 (reconcile (.pt gcTmpl [] "v1")) gcStore2 :=
@@ -670,7 +688,7 @@ theorem fn_gc_unconditional_exactness_fails_witness :
   refine ⟨gcStore_observed, by decide, by decide, ?_⟩
   have : applied sem Plan.allOk 0
       (reconcile (.fn (fun _ => .desired [⟨"a", "KA", 1, true⟩, ⟨"c", "KA", 0, false⟩]) gcCh)) gcStore =
-      [.getXR, .getObj "KA" "xr-a", .getObj "KB" "xr-b", .getObj "KF" "xr-f", .statusUpdate (some 3)] := rfl
+      [.getXR, .getCached "KA" "xr-a", .getCached "KB" "xr-b", .getCached "KF" "xr-f", .statusUpdate (some 3)] := rfl
   rw [this]; simp
 
 /-- P&T: the foreign-controlled, template-less `xr-f` is referenced *before* `xr-b`; the
@@ -684,7 +702,7 @@ theorem pt_gc_unconditional_exactness_fails_witness :
   intro s
   refine ⟨by decide, by decide, by decide, by decide, ?_⟩
   have : applied sem Plan.allOk 0 (reconcile (.pt gcTmpl [] "v1")) s =
-      [.getXR, .getObj "KF" "xr-f", .statusUpdate (some 3)] := rfl
+      [.getXR, .getCached "KF" "xr-f", .statusUpdate (some 3)] := rfl
   rw [this]; simp
 
 end Xp.C03
